@@ -150,6 +150,8 @@ def acc_streams(ctx):
 
 
 def run_acc(ctx):
+    # unbounded capacity / chunk length: index bound, slice indices in range and loop progress as an inductive invariant (Apalache)
+    core.apalache_inductive(ctx, "acc-abs", os.path.join(SPEC, "apalache", "AccAbs.tla"))
     acc_edges(ctx)
     acc_streams(ctx)
 
